@@ -48,13 +48,12 @@ void InvariantMixedDiscreteDistribution::updateDistribution()
   vector<double> probs = dist_->getProbabilities();
   vector<double> cats  = dist_->getCategories();
 
+  // A category of the nested distribution that the map cannot tell from the
+  // invariant (closer than the precision) shares its class with it.
   distribution_[invariant_] = p_;
   for (size_t i = 0; i < distNCat; i++)
   {
-    if (cats[i] == invariant_)
-      distribution_[invariant_] += (1. - p_) * probs[i];
-    else
-      distribution_[cats[i]] = (1. - p_) * probs[i];
+    add(cats[i], (1. - p_) * probs[i]);
   }
 
   intMinMax_->setLowerBound(dist_->getLowerBound(), !dist_->strictLowerBound());
@@ -72,7 +71,8 @@ void InvariantMixedDiscreteDistribution::updateDistribution()
   // if invariant_ is between 2 values of dist_, bounds_ are set in the
   // middle of the 3 values
 
-  bool nv = true;
+  // (no additional bound when the invariant shares the class of a nested category)
+  bool nv = (numberOfCategories_ == distNCat + 1);
 
   double a = dist_->getCategory(0), b;
   if (nv && (invariant_ < a))
